@@ -243,7 +243,7 @@ def _check(prop, tier, seed, py, modname, plan, scratch, ev_path, t0):
             pass
         elif st == 'setup_failed_in_lark':
             out2 = os.path.join(scratch, 'setup_%d.json' % len(conditions))
-            e2 = _child_env(s.get('params', {}), twin=False, native=True)
+            e2 = _child_env(s.get('params', {}), twin=False, native=True, hashseed=t['env'].get('PYTHONHASHSEED'))
             try:
                 subprocess.run([py, '-m', 'vfw.replay', t['cmd'][3], '__setup__', '[]', out2], env=e2, cwd=ROOT, timeout=300,
                                stdout=subprocess.DEVNULL, stderr=subprocess.DEVNULL)
@@ -261,7 +261,7 @@ def _check(prop, tier, seed, py, modname, plan, scratch, ev_path, t0):
         elif st == 'refuted':
             ok, doc = _replay(py, t, r, scratch, twin=False)
             rec = (doc.get('native') or {}).get('rec') or {}
-            why = rec.get('why') or (doc.get('native') or {}).get('exc') or ''
+            why = rec.get('why') or ((doc.get('native') or {}).get('exc') or '').strip().split('\n')[-1] or ''
             if ok is False:
                 fkey = rec.get('fkey') or ('%s:%s' % (sid, json.dumps(doc.get('args'))))
                 if rec.get('timeout_only'):
@@ -362,7 +362,9 @@ def _replay(py, t, r, scratch, twin):
         doc['native'] = {'error': 'could not recover counterexample arguments'}
         return None, doc
     out = os.path.join(scratch, 'replay_%d.json' % (abs(hash(json.dumps(doc, default=repr))) % 10 ** 9))
-    e = _child_env(s.get('params', {}), twin=twin, native=True)
+    hseed = t['env'].get('PYTHONHASHSEED')
+    doc['hashseed'] = hseed
+    e = _child_env(s.get('params', {}), twin=twin, native=True, hashseed=hseed)
     try:
         subprocess.run([py, '-m', 'vfw.replay', t['cmd'][3], t['cmd'][4], json.dumps(args), out], env=e, cwd=ROOT,
                        timeout=300, stdout=subprocess.DEVNULL, stderr=subprocess.DEVNULL)
@@ -414,7 +416,7 @@ def replay_file(path):
             json.dump({'args': doc['args'], 'history': doc['history']}, f)
         argspec = '@' + hf
     subprocess.run([py, '-m', 'vfw.replay', doc['module'], doc['func'], argspec, out],
-                   env=_child_env(doc.get('params', {}), twin=doc.get('twin', False), native=True), cwd=ROOT)
+                   env=_child_env(doc.get('params', {}), twin=doc.get('twin', False), native=True, hashseed=doc.get('hashseed')), cwd=ROOT)
     with open(out) as f:
         r = json.load(f)
     os.unlink(out)
